@@ -35,6 +35,9 @@ def tail_tie(ctx, args):
     if ta == tb:
         ctx.oblige(name, True, f'{ta.count(chr(10))} lines after the hash binding, alpha-normalised')
         return []
+    if common.dag_signature(a.stdout) == common.dag_signature(b.stdout):
+        ctx.oblige(name, True, 'texts differ but the constraint DAGs of the full circuits are equal (reordering of independent calls)')
+        return []
     la, lb = ta.split('\n'), tb.split('\n')
     k = next((i for i, (x, y) in enumerate(zip(la, lb)) if x != y), min(len(la), len(lb)))
     d = {'target': name, 'first_diff_line': k + 1, 'model': la[k] if k < len(la) else '<end>', 'code': lb[k] if k < len(lb) else '<end>'}
